@@ -186,7 +186,7 @@ def run_oscillation(rng, rec, pfid=False):
             tol = 64 * I.EPS * (1 + np.abs(k * t)) * np.abs(ref) + 1e-300
             dev = np.abs(cols[j] - ref)
             rec.slack("oscillation_no_irf", float((dev / tol).max()))
-            if (dev > tol).any():
+            if (~(dev <= tol)).any():  # NaN-aware
                 i = int(np.argmax(dev / tol))
                 # does the column hold another oscillation's quadrature? (label / order mix-up)
                 other = ""
@@ -384,7 +384,7 @@ def run_artifact(rng, rec):
             tol = tol + 16 * I.EPS * ref[0] * (cc * cc + 2 * np.abs(cc * t) + t * t + ww * ww) / ww ** (2 * o) / (ww * ww) * (o > 0)
             dev = np.abs(M[:, o] - ref[o])
             rec.slack("artifact", float((dev / tol).max()))
-            if (dev > tol).any():
+            if (~(dev <= tol)).any():  # NaN-aware
                 k = int(np.argmax(dev / tol))
                 rec.violation(f"artifact:order{o + 1}:{'own-width' if own else 'irf-width'}:{'shift' if case['shift'] else 'noshift'}", ctx,
                               f"index {i}: derivative {o} at t={t[k]:.5g}: {M[k, o]!r} vs {ref[o][k]!r} (centre_eff {cc:.5g}, width {ww:.4g})")
@@ -505,7 +505,7 @@ def run_shapes(rng, rec):
         if sp["type"] in ("one", "zero"):
             tol = np.zeros(len(x))
         rec.slack(f"shape:{sp['type']}", float((dev / (tol + 1e-300)).max()) if sp["type"] not in ("one", "zero") else 0.0)
-        if (dev > tol).any():
+        if (~(dev <= tol)).any():  # NaN-aware
             k = int(np.argmax(dev - tol))
             rec.violation(f"shape:{sp['type']}:value:{'near-zero-skew' if abs(vals.get(f'b_{j}', 1)) <= 1e-6 else 'general'}:{'inverted' if inverted else 'scaled' if scale != 1 else 'plain'}", ctx,
                           f"{cname} at x={x[k]!r}: {col[k]!r} vs documented formula {ref[k]!r} (parameters {[(q, vals[q]) for q in vals if q.endswith('_' + str(j))]})")
